@@ -47,6 +47,8 @@ def main(argv):
         if bad_text:
             broken.append({"obligation": "textual audit (sorry/axiom/native_decide/...)", "hits": bad_text})
         audit = axiom_audit(pid)
+        if "__error__" in audit:
+            broken.append({"obligation": f"QV.Props.{pid} does not compile / is not part of the build", "log": audit.pop("__error__")})
         if not audit:
             broken.append({"obligation": f"no theorem {pid}_* found in QV.Props.{pid}"})
         for th, axs in audit.items():
@@ -84,7 +86,21 @@ def main(argv):
                     if f.endswith(".json"):
                         mod.replay(ctx, json.load(open(os.path.join(cdir, f)))["case"])
                         ctx.count("corpus_cases")
-            mod.run(ctx)
+            try:
+                mod.run(ctx)
+            except InternalError:
+                raise
+            except Exception as e:  # an exception escaping from the implementation under test is a finding, not a harness error
+                tb = traceback.extract_tb(e.__traceback__)
+                in_repo = [f for f in tb if f.filename.startswith(common.REPO + os.sep)]
+                if not in_repo:
+                    raise
+                last = in_repo[-1]
+                ctx.prop_mismatch.append({"point": "implementation raised", "level": "oracle", "case": getattr(ctx, "current_case", None),
+                                          "detail": {"exception": type(e).__name__, "message": str(e)[:300],
+                                                     "where": f"{os.path.relpath(last.filename, common.REPO)}:{last.lineno} in {last.name}"},
+                                          "signature": f"raised/{type(e).__name__}/{os.path.relpath(last.filename, common.REPO)}:{last.name}",
+                                          "theorem": None})
         need_search = (broken or ctx.aux_mismatch) and not ctx.prop_mismatch and not replay_path
         if need_search and hasattr(mod, "search"):
             ctx.note("proof obligation or auxiliary correspondence broken: running failing-input search on the implementation")
